@@ -35,6 +35,12 @@ func (v *FnVC) frameItems() (items []frameItem, all bool) {
 			}
 			continue
 		}
+		if strings.HasPrefix(m, "C[") && strings.HasSuffix(m, "]") {
+			if t := v.w.parseType(m[2:len(m)-1], v.fn.Pkg); t != nil {
+				items = append(items, frameItem{whole: v.cellKey(t)})
+			}
+			continue
+		}
 		e, err := ParseExpr(m)
 		if err != nil {
 			continue
